@@ -292,8 +292,10 @@ pub fn ambiguous_history(spec: &crate::spec::SpecTable, ops: &[WOp]) -> bool {
     // something written now: does it land in the ambiguous zone?
     let lands_badly = |stack: &Vec<(u64, bool)>, just_closed: Option<u64>, id: u64| -> bool {
         if let Some(n) = just_closed {
-            // only something that ends N can follow N; a master with a placeholder path stays last
-            if spec.get(n).map_or(true, |d| d.has_global()) || !crate::refdec::ends_master(spec, n, id) {
+            // only something that ends N can follow N; a master with a placeholder path stays last - unless what follows is
+            // a root element, which ends every unknown-size master whatever its path
+            let follower_is_root = spec.get(id).map_or(false, |d| d.path.is_empty());
+            if (spec.get(n).map_or(true, |d| d.has_global()) && !follower_is_root) || !crate::refdec::ends_master(spec, n, id) {
                 return true;
             }
         }
